@@ -51,9 +51,13 @@ def gen_qcow2(rng):
 
 
 def gen_vhd(rng):
-    return {'size': interesting_size(rng),
-            'total': rng.choice((512, 513, 1024, 1536, 66000)),
-            'fill': rfill(rng), 'hdr_fill': rng.choice(('zero', 'inc'))}
+    p = {'size': interesting_size(rng),
+         'total': rng.choice((512, 513, 1024, 1536, 66000)),
+         'fill': rfill(rng), 'hdr_fill': rng.choice(('zero', 'inc'))}
+    if rng.random() < 0.4:
+        # a resized disk: "current size" differs from the size at offset 40
+        p['cur_size'] = interesting_size(rng)
+    return p
 
 
 def gen_vhdx(rng, big_tables=True):
